@@ -3,12 +3,52 @@
 //!   c31p  LANCE_INITIAL_UPLOAD_SIZE > 5 MiB (seed dependent), LANCE_UPLOAD_CONCURRENCY=2, LANCE_CONN_RESET_RETRIES=1
 //! The three constants are read once per process (OnceLock), hence two runs.
 mod e2e;
+mod mutant;
 mod sched;
 mod store;
 
 use hxlib::util::{Args, Rng, Sink, Stream};
 use serde_json::json;
 use std::sync::Arc;
+
+/// what the drivers need of a writer: the real `ObjectWriter`, or the sanity-test copy `MutWriter`
+#[async_trait::async_trait]
+pub trait WLike: tokio::io::AsyncWrite + Unpin + Send + Sized + 'static {
+    async fn new_(store: &lance_io::object_store::ObjectStore, path: &object_store::path::Path) -> Self;
+    async fn tell_(&mut self) -> usize;
+    async fn shutdown_(&mut self) -> lance_core::Result<lance_io::object_writer::WriteResult>;
+    async fn abort_(&mut self);
+}
+#[async_trait::async_trait]
+impl WLike for lance_io::object_writer::ObjectWriter {
+    async fn new_(store: &lance_io::object_store::ObjectStore, path: &object_store::path::Path) -> Self {
+        store.create(path).await.unwrap() // ObjectStore::create == ObjectWriter::new
+    }
+    async fn tell_(&mut self) -> usize {
+        lance_io::traits::Writer::tell(self).await.unwrap()
+    }
+    async fn shutdown_(&mut self) -> lance_core::Result<lance_io::object_writer::WriteResult> {
+        self.shutdown().await
+    }
+    async fn abort_(&mut self) {
+        self.abort().await
+    }
+}
+#[async_trait::async_trait]
+impl WLike for mutant::MutWriter {
+    async fn new_(store: &lance_io::object_store::ObjectStore, path: &object_store::path::Path) -> Self {
+        mutant::MutWriter::new(store, path).await.unwrap()
+    }
+    async fn tell_(&mut self) -> usize {
+        lance_io::traits::Writer::tell(self).await.unwrap()
+    }
+    async fn shutdown_(&mut self) -> lance_core::Result<lance_io::object_writer::WriteResult> {
+        self.shutdown().await
+    }
+    async fn abort_(&mut self) {
+        self.abort().await
+    }
+}
 
 pub const MIB: u64 = 1024 * 1024;
 pub const STEP: u64 = 5 * MIB;
@@ -109,7 +149,7 @@ fn run(args: &Args, cfg: Cfg, sub: &str) -> i32 {
     let specs = sched::gen_specs(args, cfg, &mut rng);
     let outcomes = sched::run_all(cfg, pat.clone(), specs);
     let mut s = Stream::new("trace", REQ, "chk_trace", "cfg_code * list ev_code", "list obs");
-    s.shard = 40;
+    s.shard = 75;
     for o in outcomes {
         for k in &o.kinds {
             sink.count(k);
@@ -127,8 +167,16 @@ fn run(args: &Args, cfg: Cfg, sub: &str) -> i32 {
     sink.add(s);
 
     // ---------------- end-to-end arm
-    e2e::run(args, cfg, pat, &mut rng, &mut sink);
+    if mutant::mutant() != 0 {
+        sink.notes.push(format!("SANITY TEST: planted breakage {} in a copy of object_writer.rs is being checked, not the real code", mutant::mutant()));
+        e2e::run::<mutant::MutWriter>(args, cfg, pat, &mut rng, &mut sink);
+    } else {
+        e2e::run::<lance_io::object_writer::ObjectWriter>(args, cfg, pat, &mut rng, &mut sink);
+    }
 
+    if mutant::mutant() == 0 {
+        sink.notes.push(sched::probe_shutdown_after_error(cfg, Arc::new(Pattern::new(args.seed))));
+    }
     let fails = sink.oracle_fail.len();
     sink.notes.push(format!("{sub}: oracle failures {fails}"));
     let _ = json!({});
